@@ -1,6 +1,9 @@
 //! kharness: drives the real kismet-cache (built from /repo's working tree)
 //! for the correspondence checks.  Line-oriented I/O only.
 mod plan;
+mod trig;
+mod shard;
+mod grow;
 
 fn main() {
     let args: Vec<String> = std::env::args().collect();
@@ -11,6 +14,9 @@ fn main() {
     match args[1].as_str() {
         "plan-enum" => plan::enumerate(args[2].parse().unwrap(), args.get(3).map(|s| s.parse().unwrap()).unwrap_or(4)),
         "plan-stdin" => plan::from_stdin(),
+        "trigger-stdin" => trig::from_stdin(),
+        "shard-stdin" => shard::from_stdin(),
+        "grow-stdin" => grow::from_stdin(),
         m => {
             eprintln!("unknown mode {}", m);
             std::process::exit(2);
